@@ -329,8 +329,12 @@ func (g *gate) SendRequest(ctx context.Context, addr string, req *tikvrpc.Reques
 		apply := func(when string) {
 			for _, vi := range w.visInj {
 				if vi.At == n && vi.When == when {
+					// the cache write and its log entry are one atomic step: several BatchGet RPCs are in flight at
+					// once, and the oracle replays the updates in log order
+					w.mu.Lock()
 					probe.UpdateTxnSafePointCache(vi.SP, time.Now())
-					w.logEv(Event{T: "update", N: n, S: when, SP: vi.SP})
+					w.events = append(w.events, Event{T: "update", N: n, S: when, SP: vi.SP})
+					w.mu.Unlock()
 				}
 			}
 		}
@@ -1420,6 +1424,9 @@ func (g *gen) vistCase(path string) *Case {
 	c := &Case{ID: g.id, Kind: "vist", Class: "vist-" + path, Path: path, S: "-", E: "-"}
 	keys := g.keys(4 + g.r.Intn(8))
 	c.Splits = g.splits(g.r.Intn(4), keys)
+	if path == "batchget" {
+		c.Splits = g.splits(2+g.r.Intn(4), keys)
+	}
 	ts := uint64(10)
 	for _, k := range keys {
 		ts += 5
@@ -1453,6 +1460,16 @@ func (g *gen) vistCase(path string) *Case {
 			sp = c.TS - 1
 		}
 		c.VisInj = append(c.VisInj, VisInj{At: 1 + g.r.Intn(nrpc), When: when, SP: sp})
+	}
+	if path == "batchget" && g.r.Intn(3) == 0 {
+		// several regions => several RPCs in flight at once; one raises the safe point, another lowers it again:
+		// the verdict depends on which cache write really came last (update + log entry are atomic in the gate)
+		whens := []string{"before", "after_inner"}
+		a, b := 1+g.r.Intn(nrpc), 1+g.r.Intn(nrpc)
+		c.VisInj = []VisInj{{At: a, When: whens[g.r.Intn(2)], SP: c.TS + 3}, {At: b, When: whens[g.r.Intn(2)], SP: c.TS - uint64(g.r.Intn(2))}}
+		if g.r.Intn(2) == 0 {
+			c.VisInj[0], c.VisInj[1] = c.VisInj[1], c.VisInj[0]
+		}
 	}
 	if g.r.Intn(6) == 0 { // raised before the send, lowered again while the response is in flight
 		at := 1 + g.r.Intn(nrpc)
@@ -1531,7 +1548,7 @@ func main() {
 		{func() *Case { return g.delCase("notify") }, 15},
 		{func() *Case { return g.visCase() }, 25},
 		{func() *Case { return g.vistCase("get") }, 20},
-		{func() *Case { return g.vistCase("batchget") }, 25},
+		{func() *Case { return g.vistCase("batchget") }, 40},
 		{func() *Case { return g.vistCase("scan") }, 45},
 		{func() *Case { return g.vistCase("rscan") }, 35},
 	}
